@@ -115,3 +115,27 @@ PROPS = {
         "assumptions": ["router driven single-threadedly through hooks H1-H3 (guard --cfg rumqtt_verif): Router::verif_events / verif_consume, link-side buffers via rumqttd::verif::new_buffers"],
     },
 }
+
+_CSTATE_TB = [
+    "Client state model: rumqttc::MqttState (v4) and rumqttc::v5::MqttState as one Lean model (Model/Client/State.lean) with a Version parameter; u16 counters as Nat with explicit overflow/underflow panics; FixedBitSet as List Bool / List Nat",
+    "Loop model (Model/Client/Loop.lean): only the request gate of select!, next_request's preference for pending, EventLoop::clean and pending.clear(); the ghost wire view and the monitors (Model/Client/Spec.lean) read observations only",
+]
+_CSTATE_MOD = ["std::collections::VecDeque / Vec / HashMap semantics", "fixedbitset 0.5.7 (insert panics out of bounds, contains returns false) — tied by the correspondence incl. an out-of-range pubrel case",
+               "tokio / flume / the real EventLoop (poll, reconnect, timers, channel): NOT exercised by this sub-command — cloop slice"]
+
+def _cstate(pid, extra_assume):
+    return {
+        "runs": [{"vh": "cstate", "driver": "cstate-" + pid, "args": ["--focus", pid], "selftest": True, "shards_thorough": 8}],
+        "exhaustive_scope": True,
+        "trusted_base": _CSTATE_TB,
+        "modelled": _CSTATE_MOD,
+        "assumptions": [
+            "theorems quantify over all op sequences of the loop-use model lstep (user requests only through the gate, pending first, pings and incoming packets ungated, failure = clean, session not resumed = pending.clear()), all max in 1..65535, manual acks on/off, both versions",
+            "the harness drives MqttState directly (also ungated and with injected requests); clauses that presuppose the gate are judged only on traces whose requests respected it (ghost flag gated)",
+        ] + extra_assume,
+    }
+
+PROPS["C07"] = _cstate("C07", ["event-loop part (EventLoop::poll really applying the gate, requests drained from the channel into pending bypassing it) not covered: cloop slice"])
+PROPS["C02"] = _cstate("C02", ["state part only: accepted\\done ⊆ held and clean() exactness; that poll() retransmits pending after a reconnect with session_present is NOT covered here: cloop slice"])
+PROPS["C10"] = _cstate("C10", ["state part only: readb batching and what poll() yields are not covered here: cloop slice"])
+PROPS["C11"] = _cstate("C11", ["state part only: order and content of clean() and of replayed requests; that pending is written before later requests, and the nested-failure reordering of EventLoop::clean, belong to the cloop slice"])
